@@ -41,7 +41,7 @@ type Case struct {
 var broken = []string{"a +", "nosuch(1)", "a[", "1 div", "'x", "concat('a')", "@a", "a//b"}
 
 func genItem(t *rapid.T) Item {
-	switch rapid.IntRange(0, 8).Draw(t, "itemkind") {
+	switch rapid.IntRange(0, 9).Draw(t, "itemkind") {
 	case 0, 1:
 		return Item{Src: c01.Source(c01.Gen(t)), Ctx: tree.ID{{Name: "ctx"}}}
 	case 2, 3:
@@ -49,6 +49,12 @@ func genItem(t *rapid.T) Item {
 		return Item{Src: c02.Source(c), Ctx: c.Ctx}
 	case 4:
 		return Item{Src: c03.Source(c03.Gen(t)), Ctx: tree.ID{{Name: "top"}, {Name: "ctx"}}}
+	case 9:
+		// re-match with patterns the regexp package accepts and ones it refuses (XSD-only constructs, malformed):
+		// what one evaluation compiles must not show in another
+		pats := []string{"val.*", "x+", ".*ctx.*", "[a-z:/]+", "\\p{IsBasicLatin}+", "[a-", "\\i\\c*", "(", "val:.*\\", "*"}
+		return Item{Src: fmt.Sprintf("re-match(%s, '%s')", []string{"a", "../b", "string(current()/a)", "'val:/x'"}[rapid.IntRange(0, 3).Draw(t, "rearg")], pats[rapid.IntRange(0, len(pats)-1).Draw(t, "repat")]),
+			Ctx: tree.ID{{Name: []string{"ctx", "x", "q"}[rapid.IntRange(0, 2).Draw(t, "rectx")]}}}
 	case 7, 8:
 		// a custom function that fails (default value) at "boom" contexts and succeeds elsewhere
 		srcs := []string{"verif-echo(a)", "concat(verif-echo(a), '|', verif-echo(../b))", "verif-echo(a) = 'verif-default'", "string-length(verif-echo(current()/a))"}
